@@ -92,8 +92,12 @@ mj::Value project(const Json& j) {
 
 // Does jsoncons value j equal the value `e` predicted by JsonText (C02 wire format)?
 // ordered: compare object member order too (ojson).
+// mode bits (decode options that change the documented image of a literal): 1 = lossless_number (a number with a fraction or
+// exponent becomes its exact text tagged bigdec), 2 = lossless_bignum(false) (an out-of-range integer becomes a double, an
+// out-of-range real +-infinity / 0), 4 = nan_to_str("NaN") / inf_to_str("Inf") / neginf_to_str("-Inf") with the inverse enabled
+// (those three strings, as values, become NaN / +inf / -inf)
 template <class Json>
-bool matches_text_value(const Json& j, const mj::Value& e, bool ordered, std::string& why) {
+bool matches_text_value(const Json& j, const mj::Value& e, bool ordered, std::string& why, int mode = 0) {
     using namespace jsoncons;
     const std::string& k = e[0].str();
     if (k == "null") { if (!j.is_null()) { why = "expected null"; return false; } return true; }
@@ -109,6 +113,11 @@ bool matches_text_value(const Json& j, const mj::Value& e, bool ordered, std::st
             if (got != want) { why = "integer literal " + lit + " yielded " + got; return false; }
             return true;
         }
+        if (cls == "big" && (mode & 2)) {
+            double want = strtod(lit.c_str(), nullptr);
+            if (j.type() != json_type::float64 || !(j.template as<double>() == want)) { why = "out-of-range integer " + lit + " not read as the nearest double (lossless_bignum off)"; return false; }
+            return true;
+        }
         if (cls == "big") {
             if (j.type() == json_type::string && j.tag() == semantic_tag::bigint) {
                 if (j.template as<std::string>() != lit) { why = "big integer digits differ: " + j.template as<std::string>(); return false; }
@@ -117,7 +126,19 @@ bool matches_text_value(const Json& j, const mj::Value& e, bool ordered, std::st
             why = "out-of-range integer literal " + lit + " not kept as big number"; return false;
         }
         // real
+        if (mode & 1) {
+            if (j.type() != json_type::string || j.tag() != semantic_tag::bigdec) { why = "lossless_number: real literal " + lit + " not kept as bigdec text"; return false; }
+            if (j.template as<std::string>() != lit) { why = "lossless_number: text differs: " + j.template as<std::string>(); return false; }
+            return true;
+        }
         errno = 0; double want = strtod(lit.c_str(), nullptr);
+        if (errno == ERANGE && (mode & 2)) {
+            if (j.type() != json_type::float64) { why = "out-of-range real " + lit + " not read as a double (lossless_bignum off)"; return false; }
+            double got = j.template as<double>(); bool tiny = std::fabs(want) < 1.0;
+            bool neg = !lit.empty() && lit[0] == '-';     // (the documentation promises +-infinity for every out-of-range real; for an underflow the nearest double is accepted as well)
+            if (!((std::isinf(got) && (got > 0) == !neg) || (tiny && std::fabs(got) <= 2.3e-308))) { why = "out-of-range real " + lit + " wrong double"; return false; }
+            return true;
+        }
         if (errno == ERANGE) {  // overflow/underflow: exact text or any double is acceptable here (C04 decides)
             if (j.type() == json_type::string) { if (j.template as<std::string>() != lit) { why = "bigdec text differs"; return false; } return true; }
             if (j.type() == json_type::float64) return true;
@@ -129,14 +150,20 @@ bool matches_text_value(const Json& j, const mj::Value& e, bool ordered, std::st
         return true;
     }
     if (k == "str") {
-        if (j.type() != json_type::string || j.tag() == semantic_tag::bigint || j.tag() == semantic_tag::bigdec) { why = "expected string"; return false; }
         std::string want = cps_to_utf8(e[1]);
+        if ((mode & 4) && (want == "NaN" || want == "Inf" || want == "-Inf")) {
+            if (j.type() != json_type::float64) { why = "string " + want + " not read as a double (nan_to_str / inf_to_str inverse)"; return false; }
+            double got = j.template as<double>();
+            if (want == "NaN" ? !std::isnan(got) : !(std::isinf(got) && (got > 0) == (want == "Inf"))) { why = "string " + want + " read as the wrong double"; return false; }
+            return true;
+        }
+        if (j.type() != json_type::string || j.tag() == semantic_tag::bigint || j.tag() == semantic_tag::bigdec) { why = "expected string"; return false; }
         if (j.template as<std::string>() != want) { why = "string content differs"; return false; }
         return true;
     }
     if (k == "arr") {
         if (!j.is_array() || j.size() != e[1].size()) { why = "array size/kind"; return false; }
-        for (size_t i = 0; i < e[1].size(); ++i) if (!matches_text_value(j[i], e[1][i], ordered, why)) return false;
+        for (size_t i = 0; i < e[1].size(); ++i) if (!matches_text_value(j[i], e[1][i], ordered, why, mode)) return false;
         return true;
     }
     if (k == "obj") {
@@ -146,7 +173,7 @@ bool matches_text_value(const Json& j, const mj::Value& e, bool ordered, std::st
         for (; i < e[1].size(); ++i) {
             std::string key = cps_to_utf8(e[1][i][0]);
             if (!j.contains(key)) { why = "missing member"; return false; }
-            if (!matches_text_value(j.at(key), e[1][i][1], ordered, why)) return false;
+            if (!matches_text_value(j.at(key), e[1][i][1], ordered, why, mode)) return false;
             if (ordered) { if (std::string((*it).key()) != key) { why = "member order"; return false; } ++it; }
         }
         return true;
